@@ -83,7 +83,8 @@ FailedPerc(t) ==
         L == t.leaves
         kept(i) == {{es[k][1], es[k][2]} : k \in {x \in 1..m : L[i].draws[x] < a}}
         expCount(r) == ISumSet({S \in SUBSET E : LCC(V, S) = r}, LAMBDA S : Pow(a, Cardinality(S)) * Pow(b - a, m - Cardinality(S)))
-        gotCount(r) == Cardinality({i \in DOMAIN L : L[i].n = r})
+        gotCount(r) == LET S == {i \in DOMAIN t.dist : t.dist[i][1] = r} IN          \* P(result = r/N) * b^m from exact leaf weights
+                       IF S = {} THEN 0 ELSE t.dist[CHOOSE i \in S : TRUE][2]
     IN
     IF t.raised # "" THEN {"raised"} ELSE
     {c \in {"input_graph_modified", "not_a_multiple_of_1_over_N", "outside_1_over_N_to_1", "phi_one_not_the_largest_component",
@@ -94,7 +95,7 @@ FailedPerc(t) ==
          [] c = "phi_one_not_the_largest_component" -> a = b /\ \E i \in DOMAIN L : L[i].n # LCC(V, E)
          [] c = "phi_zero_not_1_over_N" -> a = 0 /\ \E i \in DOMAIN L : L[i].n # 1
          [] c = "distribution_is_not_independent_retention_with_probability_phi" ->
-               t.exhaustive /\ (Len(L) # Pow(b, m) \/ \E r \in 1..N : gotCount(r) # expCount(r))}
+               t.exhaustive /\ (t.dist_offgrid \/ \E r \in 1..N : gotCount(r) # expCount(r))}
 DriftPerc(t) == IF t.raised = "" /\ t.draws_known /\ \E i \in DOMAIN t.leaves :
                       t.leaves[i].n # LCC(SetOf(t.V), {{t.E[k][1], t.E[k][2]} : k \in {x \in 1..Len(t.E) : t.leaves[i].draws[x] < t.a}})
                 THEN {"edges_not_visited_in_G_edges_order"} ELSE {}
